@@ -87,6 +87,7 @@ package tensor
 //@ func tensor.Slice.Step
 //@   pure
 
+//@ witness tensor.Slice tensor.rs Start=start End=end Step=step
 //@ spec ceilDiv(a, b) int = (a + b - 1) / b
 //@ spec sliceOK(s, size) bool = s.Start() <= s.End() && s.Start() >= 0 && !(s.Step() == 0 && s.End() - s.Start() > 1) && s.Start() < size
 //@ spec slStart(s, size) int = isnil(s) ? 0 : s.Start()
@@ -106,24 +107,32 @@ package tensor
 //@   assigns nothing
 
 //@ spec slAt(slices, i) = i < len(slices) ? slices[i] : niliface()
-//@ spec aStart(ap, slices, i) int = slStart(slAt(slices, i), ap.shape[i])
-//@ spec aEnd(ap, slices, i) int = slEnd(slAt(slices, i), ap.shape[i])
-//@ spec aStep(ap, slices, i) int = slStep(slAt(slices, i))
-//@ spec aLen(ap, slices, i) int = aStep(ap, slices, i) > 0 ? ceilDiv(aEnd(ap, slices, i) - aStart(ap, slices, i), aStep(ap, slices, i)) : aEnd(ap, slices, i) - aStart(ap, slices, i)
-//@ spec aStride(ap, slices, i) int = aStep(ap, slices, i) > 0 ? ap.strides[i] * aStep(ap, slices, i) : ap.strides[i]
+//@ spec aStart(sh, slices, i) int = slStart(slAt(slices, i), sh[i])
+//@ spec aEnd(sh, slices, i) int = slEnd(slAt(slices, i), sh[i])
+//@ spec aStep(sh, slices, i) int = slStep(slAt(slices, i))
+// the statement of C02: ceil((end-start)/step) entries on a ranged axis (step 0: a single index)
+//@ spec aLen(sh, slices, i) int = aStep(sh, slices, i) > 0 ? ceilDiv(aEnd(sh, slices, i) - aStart(sh, slices, i), aStep(sh, slices, i)) : aEnd(sh, slices, i) - aStart(sh, slices, i)
+//@ spec aStride(ap, slices, i) int = aStep(ap.shape, slices, i) > 0 ? ap.strides[i] * aStep(ap.shape, slices, i) : ap.strides[i]
 //@ spec max1(x) int = x <= 0 ? 1 : x
-//@ spec cLen(ap, slices, i) int = aStep(ap, slices, i) > 0 ? max1((aEnd(ap, slices, i) - aStart(ap, slices, i)) / aStep(ap, slices, i) + (((aEnd(ap, slices, i) - aStart(ap, slices, i)) % aStep(ap, slices, i) > 0 && i > 0) ? 1 : 0)) : aEnd(ap, slices, i) - aStart(ap, slices, i)
-//@ spec aRegular(ap, slices, i) bool = aEnd(ap, slices, i) > aStart(ap, slices, i) && (i > 0 || aStep(ap, slices, i) <= 1 || (aEnd(ap, slices, i) - aStart(ap, slices, i)) % aStep(ap, slices, i) == 0)
-//@ spec aDropped(ap, slices, i) bool = aLen(ap, slices, i) == 1 && i < len(slices) && !isnil(slices[i])
-//@ spec nkept(ap, slices, i) int decreases i = i <= 0 ? 0 : nkept(ap, slices, i-1) + (aDropped(ap, slices, i-1) ? 0 : 1)
-//@ spec startOff(ap, slices, k, i) int decreases k = k <= 0 ? 0 : startOff(ap, slices, k-1, i) + (k-1 < i ? aStart(ap, slices, k-1) * ap.strides[k-1] : 0)
-//@ spec endCut(ap, slices, size, k, i) int decreases k = k <= 0 ? size : endCut(ap, slices, size, k-1, i) - (k-1 < i ? (ap.shape[k-1] - aEnd(ap, slices, k-1)) * ap.strides[k-1] : 0)
+// what the code computes (AP.S): floor, plus one on a remainder except on axis 0, at least 1
+//@ spec cLen(sh, slices, i) int = aStep(sh, slices, i) > 0 ? max1((aEnd(sh, slices, i) - aStart(sh, slices, i)) / aStep(sh, slices, i) + (((aEnd(sh, slices, i) - aStart(sh, slices, i)) % aStep(sh, slices, i) > 0 && i > 0) ? 1 : 0)) : aEnd(sh, slices, i) - aStart(sh, slices, i)
+//@ spec aNonEmpty(sh, slices, i) bool = aEnd(sh, slices, i) > aStart(sh, slices, i)
+//@ spec aHasRem(sh, slices, i) bool = aStep(sh, slices, i) > 1 && (aEnd(sh, slices, i) - aStart(sh, slices, i)) % aStep(sh, slices, i) != 0
+//@ spec aRegular(sh, slices, i) bool = aNonEmpty(sh, slices, i) && (i > 0 || !aHasRem(sh, slices, i))
+//@ spec aDropped(sh, slices, i) bool = aLen(sh, slices, i) == 1 && i < len(slices) && !isnil(slices[i])
+//@ spec nkept(sh, slices, i) int decreases i = i <= 0 ? 0 : nkept(sh, slices, i-1) + (aDropped(sh, slices, i-1) ? 0 : 1)
+//@ spec allRegular(sh, slices, k) bool decreases k = k <= 0 ? true : allRegular(sh, slices, k-1) && aRegular(sh, slices, k-1)
+//@ spec allNonEmpty(sh, slices, k) bool decreases k = k <= 0 ? true : allNonEmpty(sh, slices, k-1) && aNonEmpty(sh, slices, k-1)
+//@ spec startOff(ap, slices, k, i) int decreases k = k <= 0 ? 0 : startOff(ap, slices, k-1, i) + (k-1 < i ? aStart(ap.shape, slices, k-1) * ap.strides[k-1] : 0)
+//@ spec endCut(ap, slices, size, k, i) int decreases k = k <= 0 ? size : endCut(ap, slices, size, k-1, i) - (k-1 < i ? (ap.shape[k-1] - aEnd(ap.shape, slices, k-1)) * ap.strides[k-1] : 0)
 //@ spec maxOff(d, s, n) int decreases n = n <= 0 ? 0 : maxOff(d, s, n-1) + (d[n-1] - 1) * s[n-1]
 
 //@ func tensor.AP.S
 //@   props C02 C13
 //@   mode rank ap.shape, ap.strides
+//@   config maxrank_quick 3
 //@   let n = len(ap.shape)
+//@   let sh = ap.shape
 //@   requires [dims] forall i :: 0 <= i && i < n ==> ap.shape[i] >= 1 && ap.strides[i] >= 0
 //@   requires [fits] maxOff(ap.shape, ap.strides, n) < size
 //@   requires [distinct] ap.shape.arr != ap.strides.arr
@@ -132,12 +141,31 @@ package tensor
 //@   ensures [start] err == nil ==> ndStart == startOff(ap, slices, n, n)
 //@   ensures [end] err == nil ==> ndEnd == endCut(ap, slices, size, n, n)
 //@   ensures [scalar] err == nil && ndEnd - ndStart == 1 ==> len(newAP.shape) == 0 && len(newAP.strides) == 0
-//@   ensures [rank] err == nil && ndEnd - ndStart != 1 && (forall i :: 0 <= i && i < n ==> aRegular(ap, slices, i)) ==> len(newAP.shape) == nkept(ap, slices, n) && len(newAP.strides) == nkept(ap, slices, n)
-//@   ensures [shape] err == nil && ndEnd - ndStart != 1 && (forall i :: 0 <= i && i < n ==> aRegular(ap, slices, i)) ==> (forall i :: 0 <= i && i < n && !aDropped(ap, slices, i) ==> newAP.shape[nkept(ap, slices, i)] == aLen(ap, slices, i) && newAP.strides[nkept(ap, slices, i)] == aStride(ap, slices, i))
+//@   ensures [rank] err == nil && ndEnd - ndStart != 1 && allRegular(sh, slices, n) ==> len(newAP.shape) == nkept(sh, slices, n) && len(newAP.strides) == nkept(sh, slices, n)
+//@   ensures [shape] err == nil && ndEnd - ndStart != 1 && allRegular(sh, slices, n) ==> (forall i :: 0 <= i && i < n && !aDropped(sh, slices, i) ==> newAP.shape[nkept(sh, slices, i)] == aLen(sh, slices, i) && newAP.strides[nkept(sh, slices, i)] == aStride(ap, slices, i))
+//@   ensures [shape_axis0_ceil] err == nil && ndEnd - ndStart != 1 && n >= 1 && allNonEmpty(sh, slices, n) && aHasRem(sh, slices, 0) && !aDropped(sh, slices, 0) ==> newAP.shape[0] == aLen(sh, slices, 0)
+//@   ensures [shape_empty_range] err == nil && ndEnd - ndStart != 1 && n >= 1 && !aNonEmpty(sh, slices, 0) ==> newAP.shape[0] == 0
 //@   ensures [unchanged] unchanged(ap.shape) && unchanged(ap.strides) && unchanged(slices)
 //@   assigns nothing
 //@   loop 0 invariant [bounds] 0 <= i && i <= n && dims == n && err == nil && len(newShape) == n && len(newStrides) == n && fresh(newShape) && fresh(newStrides) && newShape.arr != newStrides.arr
-//@   loop 0 invariant [vals] forall j :: 0 <= j && j < n && j < i ==> newShape[j] == cLen(ap, slices, j) && newStrides[j] == aStride(ap, slices, j) && slValid(slAt(slices, j), ap.shape[j])
+//@   loop 0 invariant [vals] forall j :: 0 <= j && j < n && j < i ==> newShape[j] == cLen(sh, slices, j) && newStrides[j] == aStride(ap, slices, j) && slValid(slAt(slices, j), ap.shape[j])
 //@   loop 0 invariant [rest] forall j :: 0 <= j && j < n && i <= j ==> newShape[j] == ap.shape[j]
 //@   loop 0 split i 0 n
 //@   loop 0 invariant [off] ndStart == startOff(ap, slices, n, i) && ndEnd == endCut(ap, slices, size, n, i)
+
+// Shape.S is the shape-only calculator: it must predict exactly what AP.S produces (C13).
+//@ func tensor.Shape.S
+//@   props C13 C02
+//@   mode rank s
+//@   let n = len(s)
+//@   requires [dims] forall i :: 0 <= i && i < n ==> s[i] >= 1
+//@   requires [scalarShape] len(scalarShape) == 0
+//@   ensures [arity] len(slices) > n ==> err != nil
+//@   ensures [err_iff] len(slices) <= n ==> ((err != nil) <==> (exists i :: 0 <= i && i < n && !slValid(slAt(slices, i), s[i])))
+//@   ensures [rank] err == nil && allRegular(s, slices, n) ==> len(retVal) == nkept(s, slices, n)
+//@   ensures [shape] err == nil && allRegular(s, slices, n) ==> (forall i :: 0 <= i && i < n && !aDropped(s, slices, i) ==> retVal[nkept(s, slices, i)] == aLen(s, slices, i))
+//@   ensures [unchanged] unchanged(s) && unchanged(slices)
+//@   assigns nothing
+//@   loop 0 invariant [bounds] 0 <= _i && _i <= n && err == nil && len(retVal) == n && fresh(retVal)
+//@   loop 0 invariant [vals] forall j :: 0 <= j && j < n && j < _i ==> retVal[j] == cLen(s, slices, j) && slValid(slAt(slices, j), s[j])
+//@   loop 0 invariant [rest] forall j :: 0 <= j && j < n && _i <= j ==> retVal[j] == s[j]
